@@ -966,7 +966,7 @@ def _run(ctx, r, bench):
             for t_ in st['truth']:
                 c_ = t_['date_cell'].strip()
                 if c_:
-                    date_cells[(fmt_, c_ if ' ' in fmt_ else c_.split()[0])] = t_['date']
+                    date_cells[(fmt_, c_ if any(ch.isspace() for ch in fmt_) else c_.split()[0])] = t_['date']
         if f:
             prop_fail.append(f)
         read_back = bench.read_headers()
